@@ -13,6 +13,7 @@ OBLIGATIONS = [
     "Pkgcore.C05.intersects_complete",
     "Pkgcore.C05.intersects_iff",
     "Pkgcore.C05.useOk_iff_satisfiable",
+    "Pkgcore.C05.useOk_examples",
     "Pkgcore.C05.glob_versions_convex",
     "Pkgcore.C05.adjacent_revisions_empty",
 ]
@@ -213,7 +214,7 @@ def run(ctx):
     cases = [(a, b, "corpus") for a, b in CORPUS]
     if ctx.replay_cases:
         cases = [(c["a"], c["b"], "replay") for c in ctx.replay_cases if "a" in c and "b" in c] + cases
-    for _ in range(ctx.n(2500, 30000)):
+    for _ in range(ctx.n(4000, 30000)):
         a, b = gen_pair(rng)
         cases.append((a, b, "generated"))
     if not ctx.quick():
